@@ -503,9 +503,31 @@ def conflict_split(draw):
 
 
 @st.composite
+def nested_override(draw):
+    """a consumer of a nested key directly followed (no context element in between) by an element that
+    writes into the same sub-dictionary of the context: the consumer must keep what it saw"""
+    first = [["set", "c.d", draw(st.sampled_from([1, "v"]))]]
+    if draw(st.booleans()):
+        first.append(["set", "c.e", "w"])
+    if draw(st.booleans()):
+        first.append(["set", "a", 2])
+    consumer = draw(st.sampled_from([["mkfn", "{{c.d}}"], ["mkfn", "{{c.e}}{{a}}"], ["mkfn", "{{c.d}}"], ["write", "{{c.d}}"],
+                                     ["cache", "{{c.d}}"], ["store"], ["ucfs"]]))
+    mid = [["call"]] * draw(st.integers(0, 1))
+    later = draw(st.sampled_from([["set", "c.d", "x_y"], ["set", "c.e", 7], ["set", "c", {"d": 5}], ["set", "c", {"f": {"g": 1}}],
+                                  ["set", "c.d", 2]]))
+    if draw(st.integers(0, 2)) == 0:
+        later = ["seq", [later] + draw(st.lists(leaf(), max_size=1))]
+    return first + [consumer] + mid + [later] + draw(st.lists(leaf(), max_size=2))
+
+
+@st.composite
 def tree_case(draw):
     items = draw(item_lists(draw(st.sampled_from([1, 2, 2, 3])), 1, 6))
-    if draw(st.integers(0, 4)) == 0:
+    if draw(st.integers(0, 7)) == 0:
+        no = draw(nested_override())
+        items = no if draw(st.booleans()) else items[:1] + [["seq", no]] + items[1:]
+    elif draw(st.integers(0, 4)) == 0:
         cs = draw(conflict_split())
         if draw(st.booleans()):
             items = cs
